@@ -258,6 +258,23 @@ def coq_codes(ctx, coq):
     return codes, errors
 
 
+def run_impl_robust(ctx, script, cases, keys, chunk=400, crash_out=None):
+    """run the implementation on all cases; when the runner process dies (a crash inside a C kernel), bisect to
+    isolate the crashing cases and report them as {"err": "Crash"} instead of losing the whole batch"""
+    def go(cs, depth):
+        try:
+            return ctx.run_impl(script, {"cases": [{k: c.get(k) for k in keys} for c in cs]}, timeout=900)["out"]
+        except Exception as e:  # noqa: BLE001
+            if len(cs) == 1 or depth > 12:
+                return [dict(crash_out or {}, err="Crash", msg=str(e)[-300:]) for _ in cs]
+            h = len(cs) // 2
+            return go(cs[:h], depth + 1) + go(cs[h:], depth + 1)
+    outs = []
+    for s0 in range(0, len(cases), chunk):
+        outs += go(cases[s0:s0 + chunk], 0)
+    return outs
+
+
 # ----------------------------------------------------------------------------- recovery + oracle
 def recover(case, f, out):
     """integer lattice multipliers of every atom (relative to the first anchor atom for image_molecules);
@@ -289,9 +306,7 @@ IMPL_KEYS = ("frames", "bonds", "mol_of", "api", "inplace", "make_whole", "ancho
 
 
 def run_cases(ctx, cases):
-    outs = []
-    for s0 in range(0, len(cases), 200):
-        outs += ctx.run_impl("whole_impl.py", {"cases": [{k: c.get(k) for k in IMPL_KEYS} for c in cases[s0:s0 + 200]]})["out"]
+    outs = run_impl_robust(ctx, "whole_impl.py", cases, IMPL_KEYS, chunk=200)
     ctx.log("implementation ran on %d systems" % len(cases))
     jobs, coq, rec = [], [], {}
     for ci, (c, o) in enumerate(zip(cases, outs)):
